@@ -191,6 +191,7 @@ CLIENT_SIDE = ["connect-recv", "connect-flood", "connect-nobody",
 POST_CALLS = ["connect-name", "connect-addr", "accept", "sendto",
               "sendto-nowait", "recvfrom", "resolve", "sendto-old",
               "recvfrom-old", "poll-old", "close-old", "getsockopt-old",
+              "setsockopt-old", "connect-old",
               "close-new", "bind", "listen", "getsockopt", "poll-new"]
 # calls that need the (no longer running) link loop to complete, issued on a
 # socket created after the link was terminated: one root cause
@@ -243,6 +244,10 @@ def post_call(llc, name, old):
             old.close()
         elif name == "getsockopt-old":
             old.getsockopt(nfc.llcp.SO_SNDMIU)
+        elif name == "setsockopt-old":
+            old.setsockopt(nfc.llcp.SO_RCVBUF, 2)
+        elif name == "connect-old":
+            old.connect(33)
 
 
 # --------------------------------------------------------------- scenario
